@@ -7,7 +7,7 @@ use crate::verdict::Violation;
 
 pub struct C08;
 
-pub const SINGLE_BASE: u64 = 4 << 20;
+pub const SINGLE_BASE: u64 = 1 << 20;
 pub const PEAK_BASE: u64 = 8 << 20;
 pub const CUM_BASE: u64 = 16 << 20;
 
@@ -54,7 +54,7 @@ impl Prop for C08 {
                     "C08",
                     "single_request",
                     format!("fn={site}"),
-                    format!("{} requested {} bytes at once on an image of {} bytes (limit 4 MiB + 64n)", rec.api, rec.alloc.max_request, n),
+                    format!("{} requested {} bytes at once on an image of {} bytes (limit 1 MiB + 64n)", rec.api, rec.alloc.max_request, n),
                 ));
             } else if rec.alloc.peak_over_base as u64 > PEAK_BASE + 64 * n {
                 out.push(Violation::new("C08", "peak_live", format!("api={}", rec.api), format!("{} held {} bytes live on an image of {} bytes (limit 8 MiB + 64n)", rec.api, rec.alloc.peak_over_base, n)));
@@ -69,7 +69,7 @@ impl Prop for C08 {
         shrink_case(case)
     }
     fn rule() -> String {
-        "(systematic part) every located field of a fixed list of 17 seed images x 13 boundary values, one substitution per run (thorough: all 130 364 (image, field, value) triples; quick: the first 50 000); (seeded part) same storage-fault campaign as C06 (own case stream) with the counting allocator armed around every API call: largest single request <= 4 MiB + 64n, peak live bytes <= 8 MiB + 64n, cumulative <= 16 MiB + 128n (n = image length; the unchanged tree peaks at 2.1 MiB on small images and at 12 bytes per input byte on images with hundreds of tracks and thousands of fragments); requests up to 6 GiB are served (untouched pages) so the run continues and the site is recorded, larger ones abort the worker, which the supervisor reports; distinct_nontrivial = distinct (fault kind, box path:field, outcome class) triples".into()
+        "(systematic part) every located field of a fixed list of 17 seed images x 13 boundary values, one substitution per run (thorough: all 130 364 (image, field, value) triples; quick: the first 50 000); (seeded part) same storage-fault campaign as C06 (own case stream) with the counting allocator armed around every API call: largest single request <= 1 MiB + 64n, peak live bytes <= 8 MiB + 64n, cumulative <= 16 MiB + 128n (n = image length; the unchanged tree peaks at 2.1 MiB on small images and at 12 bytes per input byte on images with hundreds of tracks and thousands of fragments); requests up to 6 GiB are served (untouched pages) so the run continues and the site is recorded, larger ones abort the worker, which the supervisor reports; distinct_nontrivial = distinct (fault kind, box path:field, outcome class) triples".into()
     }
     fn assumptions() -> Vec<String> {
         vec![
